@@ -17,9 +17,9 @@ import (
 // C20 — goctl API formatter (separate module tools/goctl, loaded with the alternate modfile).
 func init() {
 	register("C20", "other", c20)
-	props["C20"].load = func(tier string) (*load.Prog, error) {
+	props["C20"].loadWith = func(env []string, overlay map[string][]byte) (*load.Prog, error) {
 		mf := filepath.Join(rep.VerifDir(), "standins", "goctl.alt.mod")
-		return load.Load(load.Options{Dir: filepath.Join(load.RepoDir(), "tools", "goctl"), Patterns: []string{"./pkg/parser/api/..."}, Flags: []string{"-modfile=" + mf}})
+		return load.Load(load.Options{Dir: filepath.Join(load.RepoDir(), "tools", "goctl"), Patterns: []string{"./pkg/parser/api/..."}, Flags: []string{"-modfile=" + mf}, Env: env, Overlay: overlay})
 	}
 }
 
